@@ -255,7 +255,10 @@ func ruleFormatterEdits(c *Ctx) {
 		"`if opts.ErrorLines[line] { continue }` precedes the rewrite edit",
 		"posting lines are rebuilt from the syntax tree even where the parser reported an error: text the parser did not understand (a dangling '@', a lone '$', trailing words) is deleted")
 	// the server hands the parser's errors to the formatter
-	fmtH := c.P.SSAFunc("internal/server", "Server.Format")
+	var fmtH *ssa.Function
+	if fd := c.P.handlerByParam("protocol.DocumentFormattingParams"); fd != nil {
+		fmtH = c.P.ssaOf(fd)
+	}
 	if fmtH == nil {
 		c.undecided("C04-ERRS", "server.Server.Format", "anchor", token.NoPos, "formatting handler not found")
 	} else {
